@@ -30,7 +30,7 @@ CHECKS = {
 }
 
 CHECKS["C03"] = {
-    "technique": "sibling cross-check over MIR: prepare/start/end tracker sets per Command::apply arm (reified fn pointers resolved), dominator-based gating of every reader accessor, provenance of the claim predicate",
+    "technique": "sibling cross-check over MIR: prepare/start/end tracker sets per Command::apply arm (reified fn pointers resolved), dominator-based gating of every reader accessor (plain getter behind the flag, or gated accessor) and of every direct tracker-field read, provenance of the claim predicate, who-writes table of the tracker fields and who-reads table of reader types (rules/writers.json, rules/readers.json), shared disposition rules of C02/C05",
     "text": "Decides on every arm and every reader path that the prepare/start/end protocol agrees, that readers reach tracker data only behind the reacting flag, their own reaction variant and their own TypeId, and that the claim of pending metadata identifies the command. The last clause is violated on the current tree (claim by system id only): recorded as four known findings (F3), any other violation still alarms.",
     "note": TRUSTED + "Not decided: the behavioural claim for arbitrary mixes of pending events (refuted by F3); payload values.",
 }
@@ -56,7 +56,7 @@ CHECKS["C05"] = {
     "note": TRUSTED + "Not decided: listeners revoked between scheduling and running; entity counts at quiescence.",
 }
 CHECKS["C06"] = {
-    "technique": "A4 variant-arm association + shared kind graph; loop/index provenance in each revoke_* (enumerate index of the element compared equal); closure edge conditions in EntityReactors::remove; call-graph reachability for deferral; provenance of world-reactor system ids",
+    "technique": "A4 variant-arm association + shared kind graph; loop/index provenance in each revoke_* (enumerate index of the element compared equal); closure edge conditions or index-scan loop recogniser in EntityReactors::remove; must-pass-through rule for the dispatch of every token entry; call-graph reachability for deferral; provenance of world-reactor system ids; who-writes table of the reactor tables (rules/writers.json)",
     "text": "Decides that revocation dispatch is exhaustive and agrees with registration, removes exactly the matching entry and stops, edits the tables immediately (no deferral reachable), tolerates dead or absent entries without panicking, and that world reactors revoke with the id and triggers they registered.",
     "note": TRUSTED + "Not decided: command order relative to the next trigger (Bevy); duplicate registrations of one trigger.",
 }
@@ -68,7 +68,7 @@ CHECKS["C07"] = {
 }
 
 CHECKS["C08"] = {
-    "technique": "call-graph reachability with generic-argument tracking (track_removals::<C>), entry-point classification of the removal collector, dominator rules for the DespawnTracker guard and entity identity, must-pass-through poll rule on every run path, generic-argument facts of add_systems/after/in_set",
+    "technique": "call-graph reachability with generic-argument tracking (track_removals::<C>), entry-point classification of the removal collector, dominator rules for the DespawnTracker guard and entity identity, must-pass-through poll rule on every run path and dominance of the entry pass over the callback lookup, generic-argument facts of add_systems/after/in_set",
     "text": "Decides that removal/despawn detectors are installed by both removal triggers for their own type, are persistent and not duplicated, that a DespawnTracker is never replaced and reports the entity it sits on exactly once, that the polled dispatch loops are exhaustive, and that polling happens after every run and in Last after auto-despawn.",
     "note": TRUSTED + "Not decided: exactly-once over arbitrary histories between polls (RemovedComponents buffering and component drop on despawn are Bevy's contract).",
 }
@@ -88,7 +88,7 @@ CHECKS["C11"] = {
     "note": TRUSTED + "Not decided: state after a panic unwinds through a tree; user callbacks that ignore the cleanup.",
 }
 CHECKS["C13"] = {
-    "technique": "A4 variant arms + must-pass-through write-back rule in both run_with_cleanup functions, provenance of the written-back system, data-flow of the system argument from every registration entry point, trait-impl table",
+    "technique": "A4 variant arms + must-pass-through write-back rule in both run_with_cleanup functions, provenance of the written-back system, data-flow of the system argument from every registration entry point (sinks, and must-pass-through of a sink on every returning path), trait-impl table",
     "text": "Decides that an initialized system is always written back as Initialized with the same system value, that initialization happens only on the New arm, that every registration builds and owns its own system (never a type-keyed cache), that the stored callback is private and conserved by the runner.",
     "note": TRUSTED + "Not decided: Bevy keeping Local state across run_unsafe calls.",
 }
@@ -99,12 +99,12 @@ CHECKS["C14"] = {
     "note": TRUSTED + "Not decided: values ('stores the value' is decided as 'the replace happens').",
 }
 CHECKS["C15"] = {
-    "technique": "closure typestate over MIR: Option::take guard of the stored closure, must-pass-through rules (despawn + revoke after the run on every path), provenance of entity / token / triggers / mode constant inside ReactCommands::once",
+    "technique": "closure typestate over MIR: Option::take guard of the stored closure, must-pass-through rules (despawn + revoke after the run on every path), provenance of entity / token / triggers / mode constant inside ReactCommands::once, must-pass-through of registration and callback storage after the entity is reserved, shared registration rule of C01.a",
     "text": "Decides that the once wrapper can run its reactor at most once, that every path after the run despawns the reactor's own fresh entity and revokes a clone of the returned token, and that registration, token, storage and despawn share one identity with mode Revokable.",
     "note": TRUSTED + "Not decided: which trigger fires first (ordering, C01/C02).",
 }
 CHECKS["C16"] = {
-    "technique": "call-graph reachability (no spawn / despawn from world-reactor methods), constant-mode and id provenance, path counting in the App add methods, dominance/ordering and loop-shape rules in EntityReactor::add/remove, A4 exhaustiveness of ReactorType::get_entity, shared reader-gating rules",
+    "technique": "call-graph reachability (no spawn / despawn from world-reactor methods), constant-mode and id provenance, path counting in the App add methods, dominance/ordering and loop-shape rules in EntityReactor::add/remove, A4 exhaustiveness of ReactorType::get_entity, expected-zero rule for removals of the EntityReactors component, shared reader-gating and one-run-per-command rules",
     "text": "Decides that world reactors never spawn or despawn their system and always register Persistent with the resource-held id; that local data is attached to the trigger entity before registration; that removal revokes first and then cleans up once per token entity, removing data only when no entry of the reactor remains; that EntityLocal reads the data of the entity it reports.",
     "note": TRUSTED + "Not decided: histories over several entities; value of the data.",
 }
